@@ -708,7 +708,7 @@ Proof.
   intros Hnd Hf Hin Hk. pose proof (find_mod_unique k l m' Hnd Hin Hk) as E. congruence.
 Qed.
 
-(* "only to_compile changed" between two states *)
+(* only to_compile / the compiled tree / ... changed between two states: equal after the normaliser N *)
 Record same_but (N : modl -> modl) (t t' : state) : Prop := {
   sb_expl : explicit t' = explicit t;
   sb_creating : creating t' = creating t;
@@ -2393,12 +2393,14 @@ Lemma side_conditions_necessary :
                  snd (step R s o) = RErr /\ obs (fst (step R s o)) <> obs s).
 Proof.
   split; [|split; [|split]].
-  - exists w1_R, w1_s, w1_o. split; [apply reachable_run|]. pose proof w1_facts. tauto.
+  - exists w1_R, w1_s, w1_o. split; [apply reachable_run|]. destruct w1_facts as [A [B [C [D E]]]].
+    repeat (split; [assumption|]). exact E.
   - exists w2_R, w2_s, w2_o. split; [apply reachable_run|]. destruct w2_facts as [A [B [C [D [E [F G]]]]]].
-    repeat (split; [assumption|]). exists (OpParse w_b1_imp_a FNull). tauto.
+    repeat (split; [assumption|]). exists (OpParse w_b1_imp_a FNull). split; assumption.
   - exists w2_R, w3_s, w2_o. split; [apply reachable_run|]. destruct w3_facts as [A [B [C [D E]]]].
     repeat (split; [assumption|]). vm_compute. reflexivity.
-  - exists w4_R, w4_s, w4_o. split; [apply reachable_run|]. pose proof w4_facts. tauto.
+  - exists w4_R, w4_s, w4_o. split; [apply reachable_run|]. destruct w4_facts as [A [B [C [D E]]]].
+    repeat (split; [assumption|]). exact E.
 Qed.
 Lemma hypotheses_satisfiable :
   reachable w7_R w7_s /\ quiescent w7_s = true /\
@@ -2415,7 +2417,8 @@ Lemma data_trees_refuted :
   exists R s o k, reachable R s /\ quiescent s = true /\ snd (step R s o) = RErr /\ obs (fst (step R s o)) = obs s /\
     option_map m_impl (find_mod k (mods s)) = Some true /\ In k (compiled_in (fst (step R s o))).
 Proof.
-  exists w6_R, w6_s, w6_o, (0, 1). split; [apply reachable_run|]. pose proof w6_facts. tauto.
+  exists w6_R, w6_s, w6_o, (0, 1). split; [apply reachable_run|]. destruct w6_facts as [A [B [C [D E]]]].
+    repeat (split; [assumption|]). exact D.
 Qed.
 Lemma later_load_unaffected : forall R s s' o2,
   core s' = core s -> step R s' o2 = step R s o2.
